@@ -43,6 +43,29 @@ def run(tier, seed):
     problems = []
     nconv = 0
     trace_by_variant = {}
+    # pass 0: let the library write ITMZ archives of documents padded so that the archive's mapdata.xml hits given sizes
+    import project
+    def itmz_of(docs_):
+        exe0 = build.build_harness("asan")
+        s0 = ["seg\titmzgen", "wantout\t1"]
+        for j, d in enumerate(docs_):
+            s0 += [line("src", "g%d" % j, sx(d)), line("conv", "s_data", "g%d" % j, docs.FMT["itmz"], docs.STD, 0)]
+        r0 = run_harness(exe0, [s0])[0]
+        out = []
+        for ev in r0["events"]:
+            if ev.get("e") == "conv" and ev.get("out") is not None:
+                zb = project.lat1(ev["out"]); ok, mem, err = project.zip_members(zb)
+                m = [x for x in mem if x["name"] == "mapdata.xml"]
+                out.append((len(m[0]["data"]) if m else -1, zb))
+        return out
+    base_doc = lambda pad: ("# T\n\n" + "x" * pad + "\n").encode()
+    probe = itmz_of([base_doc(0), base_doc(10)])
+    itmz_zips = []
+    if len(probe) == 2 and probe[0][0] > 0 and probe[1][0] - probe[0][0] == 10:
+        L0 = probe[0][0]
+        pads = sorted({T - L0 + dlt for T in (1024, 2048, 4096) for dlt in (-1, 0, 1) if T - L0 + dlt >= 0})
+        itmz_zips = itmz_of([base_doc(p_) for p_ in pads])
+    chk.cov["itmz_mapdata_sizes"] = [L for L, _ in itmz_zips]
     for variant in (("asan", "nopool") if True else ("asan",)):
         exe = build.build_harness(variant)
         segs = []; per = 40
@@ -75,6 +98,12 @@ def run(tier, seed):
                 so += [line("opml2text", fam, "o%d" % j, "opml"), line("opml2text", fam, "o%d" % j, "itmz")]
             so += [line("conv", "s_conv", "o%d" % j, 0, docs.EXT["PARSE_OPML"], 0), line("conv", "d_data", "o%d" % j, 11, docs.EXT["PARSE_OPML"], 0), line("conv", "s_conv", "o%d" % j, 2, docs.EXT["PARSE_ITMZ"], 0)]
         segs.append(so)
+        # real ITMZ archives whose mapdata.xml is 1023 / 1024 / 1025 ... bytes long (the importer unpacks it into a buffer of its own)
+        if itmz_zips:
+            sz = ["seg\titmzsize", "timeout\t20"]
+            for j, (L, zb) in enumerate(itmz_zips):
+                sz += [line("src", "y%d" % j, sx(zb)), line("opml2text", "de"[j % 2], "y%d" % j, "itmz"), line("conv", "d_conv", "y%d" % j, 0, docs.EXT["PARSE_ITMZ"], 0)]
+            segs.append(sz)
         # size boundaries (growth of the definition stacks, search tries, label tables)
         sc = H.scale_docs()
         for j0 in range(0, len(sc), 6):
